@@ -17,10 +17,20 @@ def replay(path):
     wd = vlib.scratch()
     if kind == "solver":
         from . import strace
-        t = strace.record_one(dict(inst["inst"]))
-        if "machinery" in t:
-            raise vlib.MachineryError(t["machinery"])
-        res = strace.validate(prop, [t], os.path.join(wd, "tr"))
+        ii = dict(inst["inst"])
+        if ii.get("refid"):
+            # C19: the comparison needs its reference run (generator state A, no warm-up solve); every run in a process of its own, as in the check
+            ref = dict(ii, id=ii["refid"], rng_state=12345)
+            ref.pop("refid", None)
+            ref.pop("warm", None)
+            pair = strace.record_many([ref, ii, dict(ref, id=-1)])[:2]
+            t = pair[1]
+            res = strace.validate(prop, pair, os.path.join(wd, "tr"))
+        else:
+            t = strace.record_one(ii)
+            if "machinery" in t:
+                raise vlib.MachineryError(t["machinery"])
+            res = strace.validate(prop, [t], os.path.join(wd, "tr"))
         viols = res["per"][t["id"]]
         print("instance: %s" % json.dumps(inst["inst"]))
         print("outcome: %s" % t["summary"])
